@@ -281,15 +281,30 @@ pub fn random_fees(r: &mut StdRng) -> [u128; 3] {
     }
 }
 
+/// a two-asset stableswap pool (C03): the statement's decimal pairs, any amplification, at least eight whole tokens
+/// of each asset to start with (the first deposit draws from [scale/8, scale])
+pub fn stable_cfg(r: &mut StdRng, run: u64) -> (PoolCfg, u64) {
+    let base = random_cfg(r, run);
+    let decimals = *gen::pick(r, &[[6u8, 6u8], [6, 6], [6, 8], [8, 6], [6, 18], [18, 6], [4, 5]]);
+    let amp: u64 = match r.gen_range(0..5) { 0 => 1, 1 => 1_000_000, 2 => 100, _ => gen::log_uniform(r, 1, 1_000_000) as u64 };
+    let pow10 = |d: u8| 10u128.pow(d as u32);
+    let cap = |d: u8| ((1u128 << 100) / pow10(d)).max(16);
+    let tok0 = gen::log_uniform(r, 8, cap(decimals[0]).min(1u128 << 40));
+    let tok1 = match r.gen_range(0..4) { 0 => tok0, 1 => (tok0 / 2).max(8), 2 => tok0.saturating_mul(3), _ => gen::log_uniform(r, 8, 1u128 << 40) }.min(cap(decimals[1]));
+    (PoolCfg { kinds: base.kinds, decimals, fees: base.fees, scale: [tok0 * pow10(decimals[0]), tok1 * pow10(decimals[1])] }, amp)
+}
+
 /// one run = one fresh world and `nops` operations
-pub fn run_random(rec: &mut Rec, seed: u64, run: u64, nops: usize) {
-    let mut r = gen::rng(seed, run);
-    let cfg = random_cfg(&mut r, run);
+pub fn run_random(rec: &mut Rec, seed: u64, run: u64, nops: usize, stable: bool) {
+    let mut r = gen::rng(seed, run ^ if stable { 0x5354_4142 } else { 0 });
+    let (cfg, amp) = if stable { stable_cfg(&mut r, run) } else { (random_cfg(&mut r, run), 0) };
     let fund: u128 = 1u128 << 122;
-    let mut p = PoolRun::new(cfg.kinds, cfg.decimals, cfg.fees, PairType::ConstantProduct, fund);
+    let ptype = if stable { PairType::StableSwap { amp } } else { PairType::ConstantProduct };
+    let mut p = PoolRun::new(cfg.kinds, cfg.decimals, cfg.fees, ptype, fund);
     rec.emit(json!({
         "ev": "reset", "suite": "pool", "run": run, "seed": seed.to_string(), "ops": nops,
-        "cfg": {"ptype": "cp", "kinds": [p.assets[0].kind(), p.assets[1].kind()],
+        "extra": {"kind": if stable { "stable" } else { "cp" }},
+        "cfg": {"ptype": if stable { "stable" } else { "cp" }, "amp": amp.to_string(), "kinds": [p.assets[0].kind(), p.assets[1].kind()],
                 "dec": [cfg.decimals[0], cfg.decimals[1]]},
         "obs": p.obs(),
     }));
@@ -540,10 +555,10 @@ pub fn run_random(rec: &mut Rec, seed: u64, run: u64, nops: usize) {
     }
 }
 
-pub fn main(seed: u64, first: u64, runs: u64, nops: usize, out: &str) {
+pub fn main(seed: u64, first: u64, runs: u64, nops: usize, out: &str, kind: &str) {
     let mut rec = Rec::create(out);
     for run in first..first + runs {
-        run_random(&mut rec, seed, run, nops);
+        run_random(&mut rec, seed, run, nops, kind == "stable");
     }
     let n = rec.finish();
     eprintln!("pool: {runs} runs, {n} lines -> {out}");
